@@ -1,2 +1,3 @@
 -- Root of the NakenVerif library: models, specifications and property theorems.
 import NakenVerif.Props.C04
+import NakenVerif.Props.C12
